@@ -1,4 +1,5 @@
-import WfProofs.SseClientRun
+import WfProofs.SseClientLive
+import WfModel.GenEventLog
 
 /-!
 # C17 — the client's auto-reconnecting event stream delivers each event once
@@ -96,8 +97,9 @@ theorem json_no_isBreak {valid : List Char → Bool} {srv : Server} (hwf : WellF
     have := C17_source_shape.2.2.2.2 c hm
     omega
 
-theorem expected_eq {srv : Server} (h : LogOk srv.log) (c0 : Int) : expected srv c0 = srv.later c0 :=
-  takeThrough_logOk _ (later_eq srv c0 ▸ h.aft c0)
+theorem expected_eq {srv : Server} (h : LogOk srv.log) (c0 : Int) : expected srv c0 = vis srv c0 := by
+  unfold expected vis
+  rw [takeThrough_logOk _ (later_eq srv c0 ▸ h.aft c0)]
 
 theorem inv_init (srv : Server) (c0 : Int) : Inv srv c0 { last := c0 } := ⟨0, by simp [emit], by simp [lastOf]⟩
 
@@ -168,9 +170,9 @@ theorem _root_.C17_last_sequence_tracks_yield (valid : List Char → Bool) (srv 
     rw [show r.1.out = _ from ho] at hit
     simp only [emit, List.mem_map] at hit
     obtain ⟨e, he, rfl⟩ := hit
-    have he' : e ∈ srv.later c0 := by
+    have he' : e ∈ vis srv c0 := by
       rw [← expected_eq hwf.log]; exact List.mem_of_mem_take he
-    have := List.mem_filter.mp he'
+    have := List.mem_filter.mp (List.mem_filter.mp he').1
     exact ⟨e, this.1, by simpa using this.2, rfl⟩
 
 /-- **The client gives up only when the failure counter exceeds the limit.** -/
@@ -184,6 +186,240 @@ theorem _root_.C17_gives_up_only_over_budget (valid : List Char → Bool) (srv :
   rw [hgave] at h3
   rcases h3 with h | h <;> exact absurd h (by decide)
 
+/-! ## the log grows while the client streams -/
+
+/-- A history of the run's log as the scripted connections see it: every connection sees an
+extension of what the previous one saw (events appended between two connections or while one is
+open), and all of it is part of the final log `top`. -/
+structure Grows (script : List (Server × Conn)) (top : Server) : Prop where
+  chain : (script.map (·.1.log)).Pairwise (· <+: ·)
+  below : ∀ s ∈ script, s.1.log <+: top.log
+  /-- the reader sends the same `include_internal` flag on every connection -/
+  view : ∀ s ∈ script, s.1.inclInternal = top.inclInternal
+
+/-- once the handler's status is terminal nothing is appended any more -/
+def Settled (script : List (Server × Conn)) (top : Server) : Prop :=
+  ∀ s ∈ script, s.1.statusDone = true → s.1.log = top.log
+
+/-- `run` (one fixed log) is the constant history: everything proved of `runLive` holds of it. -/
+theorem _root_.C17_run_is_live (P : Params) (srv : Server) (st : CState) (conns : List Conn) :
+    run P srv st conns = runLive P st (conns.map fun c => (srv, c)) ∧
+    Grows (conns.map fun c => (srv, c)) srv ∧ Settled (conns.map fun c => (srv, c)) srv := by
+  refine ⟨run_eq_runLive srv conns st, ⟨?_, ?_, ?_⟩, ?_⟩
+  · rw [List.map_map]
+    apply List.pairwise_map.mpr
+    exact List.pairwise_of_forall (fun _ _ => List.prefix_refl _)
+  · intro s hs
+    obtain ⟨c, _, rfl⟩ := List.mem_map.mp hs
+    exact List.prefix_refl _
+  · intro s hs
+    obtain ⟨c, _, rfl⟩ := List.mem_map.mp hs
+    rfl
+  · intro s hs _
+    obtain ⟨c, _, rfl⟩ := List.mem_map.mp hs
+    rfl
+
+theorem live_inv {valid : List Char → Bool} {top : Server} {maxR : Nat} (c0 : Int) {script : List (Server × Conn)}
+    (hwf : WellFormed valid top) (hgrow : Grows script top) (hraw : ∀ s ∈ script, s.2.raw = none) :
+    Inv top c0 (runLive (client valid maxR) { last := c0 } script).1 ∧
+    (runLive (client valid maxR) { last := c0 } script).2 ≠ .errParse ∧
+    ReqsOk c0 (runLive (client valid maxR) { last := c0 } script).1 ∧
+    (runLive (client valid maxR) { last := c0 } script).1.reqs.length ≤ script.length := by
+  obtain ⟨g1, g2, g3, g4⟩ := runLive_inv (P := client valid maxR) (ctx_of isBreak_ok hwf (json_no_isBreak hwf)) c0 script
+    { last := c0 } { log := [], inclInternal := top.inclInternal } (inv_init _ c0) List.nil_prefix rfl
+    (fun _ _ => List.nil_prefix) hgrow.chain hgrow.below hgrow.view hraw
+  exact ⟨g1, g2, g3 ⟨[], by simp, by simp, rfl⟩, by simpa using g4⟩
+
+/-- **Never twice, never out of order, never a gap -- while the run is still producing events.**
+For every history of the log and every script whatsoever (drops at any byte, refusals, timeouts,
+status codes, exhausted budget, script cut short): what has been yielded is a prefix of the events
+of the FINAL log after `c0`, `last` is the sequence of the last item yielded, and the stream never
+dies of a validation error. -/
+theorem _root_.C17_live_never_duplicates (valid : List Char → Bool) (top : Server) (maxR : Nat) (c0 : Int)
+    (script : List (Server × Conn)) (hwf : WellFormed valid top) (hgrow : Grows script top)
+    (hraw : ∀ s ∈ script, s.2.raw = none) :
+    let r := runLive (client valid maxR) { last := c0 } script
+    (∃ j, r.1.out = emit ((expected top c0).take j) ∧ r.1.last = lastOf c0 ((expected top c0).take j)) ∧
+    r.2 ≠ .errParse := by
+  intro r
+  rw [expected_eq hwf.log]
+  obtain ⟨g1, g2, _, _⟩ := live_inv (maxR := maxR) c0 hwf hgrow hraw
+  exact ⟨g1, g2⟩
+
+/-- **Exactly once over a growing log**: refusals and drops at any byte within the budget while the
+log grows, then an undisturbed connection that sees the final log: exactly the events of the final
+log after `c0`, in order, once each, each showing its own sequence. -/
+theorem _root_.C17_live_exactly_once (valid : List Char → Bool) (top : Server) (maxR : Nat) (c0 : Int)
+    (drops : List (Server × Conn)) (fin : List Nat)
+    (hwf : WellFormed valid top) (hgrow : Grows drops top) (hsettled : Settled drops top)
+    (hdrops : DropsOnly (drops.map (·.2))) (hbud : peakFailures 0 (drops.map (·.2.fault)) ≤ maxR) :
+    let r := runLive (client valid maxR) { last := c0 } (drops ++ [(top, quiet fin)])
+    r.1.out = emit (expected top c0) ∧ r.1.last = lastOf c0 (expected top c0) ∧
+    (r.2 = .done ∨ r.2 = .pending) ∧ (top.log.any (·.terminal) = true → r.2 = .done) := by
+  intro r
+  rw [expected_eq hwf.log]
+  exact runLive_exact (P := client valid maxR) (ctx_of isBreak_ok hwf (json_no_isBreak hwf)) c0 fin drops
+    { last := c0 } { log := [], inclInternal := top.inclInternal } (inv_init _ c0) List.nil_prefix rfl
+    (fun _ _ => List.nil_prefix) hgrow.chain hgrow.below hgrow.view hsettled hdrops hbud
+
+/-- **Every reconnect asks for exactly what is missing.**  For every history and every script: at
+most one request per scripted connection; the first one carries the start cursor; the `i`-th one
+carries the `last_sequence` the consumer reads after `ks[i]` yields, for moments `ks` that only
+move forward (so each cursor is the start cursor or the sequence of an event already queued); the
+cursor never goes back. -/
+theorem _root_.C17_reconnect_cursors (valid : List Char → Bool) (top : Server) (maxR : Nat) (c0 : Int)
+    (script : List (Server × Conn)) (hwf : WellFormed valid top) (hgrow : Grows script top)
+    (hraw : ∀ s ∈ script, s.2.raw = none) :
+    let r := runLive (client valid maxR) { last := c0 } script
+    r.1.reqs.length ≤ script.length ∧ (script ≠ [] → r.1.reqs.head? = some c0) ∧
+    (∃ ks : List Nat, ks.Pairwise (· ≤ ·) ∧ (∀ k ∈ ks, k ≤ r.1.out.length) ∧
+      r.1.reqs = ks.map (streamLast c0 r.1.out)) ∧
+    r.1.reqs.Pairwise (· ≤ ·) := by
+  intro r
+  obtain ⟨⟨j, ho, _⟩, _, ⟨ks, k1, k2, k3⟩, g4⟩ := live_inv (maxR := maxR) c0 hwf hgrow hraw
+  refine ⟨g4, fun hne => runLive_reqs_head script hne { last := c0 } rfl, ⟨ks, k1, k2, k3⟩, ?_⟩
+  show (runLive (client valid maxR) { last := c0 } script).1.reqs.Pairwise (· ≤ ·)
+  rw [k3, ho]
+  have hlog : LogOk (vis top c0) := vis_logOk hwf.log c0
+  refine reqs_monotone (List.Pairwise.sublist (List.take_sublist _ _) hlog) ?_ k1
+  intro e he
+  exact vis_gt (List.mem_of_mem_take he)
+
+/-- **`last_sequence` at every yield**: for every history and script, after the consumer has been
+handed `k` items (any `k` up to what was queued), `EventStream.last_sequence` is the sequence of
+the `k`-th event of the final log after `c0` -- the start cursor for `k = 0`. -/
+theorem _root_.C17_last_sequence_at_every_yield (valid : List Char → Bool) (top : Server) (maxR : Nat) (c0 : Int)
+    (script : List (Server × Conn)) (hwf : WellFormed valid top) (hgrow : Grows script top)
+    (hraw : ∀ s ∈ script, s.2.raw = none) :
+    let r := runLive (client valid maxR) { last := c0 } script
+    ∀ k, k ≤ r.1.out.length → streamLast c0 r.1.out k = lastOf c0 ((expected top c0).take k) := by
+  intro r k hk
+  obtain ⟨⟨j, ho, _⟩, _⟩ := C17_live_never_duplicates valid top maxR c0 script hwf hgrow hraw
+  have ho' : r.1.out = emit ((expected top c0).take j) := ho
+  rw [ho'] at hk ⊢
+  rw [streamLast_emit, List.take_take]
+  have : (emit ((expected top c0).take j)).length = ((expected top c0).take j).length := by simp [emit]
+  rw [this, List.length_take] at hk
+  congr 2
+  omega
+
+/-! ## the `include_internal` filter -/
+
+/-- **Internal events never reach the consumer unless asked for, and cost nothing else.**  For every
+history and script: each yielded item is an event of the final log after `c0` that the stream's
+`include_internal` flag lets through; with the flag set the expected list is every later event
+through the first terminal one, without it exactly the non-internal ones among them (so
+`C17_live_exactly_once` delivers all of those, each once, although the reconnect cursor -- the
+sequence of the last *shown* event -- makes the server walk over the hidden ones again). -/
+theorem _root_.C17_internal_filter (valid : List Char → Bool) (top : Server) (maxR : Nat) (c0 : Int)
+    (script : List (Server × Conn)) (hwf : WellFormed valid top) (hgrow : Grows script top)
+    (hraw : ∀ s ∈ script, s.2.raw = none) :
+    let r := runLive (client valid maxR) { last := c0 } script
+    (∀ it ∈ r.1.out, ∃ e ∈ top.log, c0 < (e.seq : Int) ∧ top.shows e = true ∧ it = ((e.seq : Int), e.payload)) ∧
+    (top.inclInternal = true → expected top c0 = takeThrough (·.terminal) (top.later c0)) ∧
+    (top.inclInternal = false → expected top c0 = (takeThrough (·.terminal) (top.later c0)).filter (fun e => !e.internal)) := by
+  intro r
+  refine ⟨?_, ?_, ?_⟩
+  · intro it hit
+    obtain ⟨⟨j, ho, _⟩, _⟩ := C17_live_never_duplicates valid top maxR c0 script hwf hgrow hraw
+    rw [show r.1.out = _ from ho] at hit
+    simp only [emit, List.mem_map] at hit
+    obtain ⟨e, he, rfl⟩ := hit
+    have he' : e ∈ vis top c0 := by
+      rw [← expected_eq hwf.log]; exact List.mem_of_mem_take he
+    have h1 := List.mem_filter.mp he'
+    have h2 := List.mem_filter.mp h1.1
+    exact ⟨e, h2.1, by simpa using h2.2, h1.2, rfl⟩
+  · intro h
+    unfold expected
+    apply List.filter_eq_self.mpr
+    intro e _
+    simp [Server.shows, h]
+  · intro h
+    unfold expected
+    apply List.filter_congr
+    intro e _
+    simp [Server.shows, h]
+
+/-! ## the client's line iterator and the text of the cursor -/
+
+/-- **Chunk boundaries do not matter**: however the decoded text of a connection is cut into
+`aiter_text` chunks (empty ones included), `_iter_sse_lines` hands the frame parser the lines of
+the whole text -- the expression `connect` uses. -/
+theorem _root_.C17_chunking_irrelevant (brk : Char → Bool) (eof : Bool) (chunks : List (List Char)) :
+    chunkedLines brk eof chunks =
+      (let sp := splitLines brk chunks.flatten
+       if eof && !sp.2.isEmpty then sp.1 ++ [sp.2] else sp.1) :=
+  chunkedLines_eq eof chunks
+
+/-- **The cursor survives the trip**: the server's `int(after_sequence_str)` reads back the
+`str(last_sequence)` the reader sent, for every integer; the text consists of `-` and ASCII digits
+only (so it is not `now` in any letter case, and no 400). -/
+theorem _root_.C17_cursor_text_roundtrip (n : Int) :
+    pyInt? (pyStr n) = some n ∧ ∀ c ∈ pyStr n, c = '-' ∨ ('0' ≤ c ∧ c ≤ '9') := by
+  refine ⟨pyInt_pyStr n, ?_⟩
+  intro c hc
+  rcases pyStr_chars n c hc with h | ⟨d, hd, rfl⟩
+  · exact Or.inl h
+  · right
+    have : ∀ d, d < 10 → ('0' ≤ digitChar d ∧ digitChar d ≤ '9') := by decide
+    exact this d hd
+
+/-- **The statements the new definitions transcribe** (regenerated from `client.py` / `_api.py`
+on every run, local names abstracted): the line iterator `iterLines`/`chunkedLines` model
+(`buffer += text; *lines, buffer = buffer.split(sep)`, the rest flushed only after a clean end);
+`EventStream` (`streamLast`: `last_sequence` is set from the queued item right before the `yield`);
+the reconnect loop in source order (the cursor enters from `after_sequence`, is sent as
+`str(cursor)`, moves only after validation and before the event is queued with it; the counter is
+reset after an accepted status, incremented per transport error, compared with `>`); the status
+dispatch and the order of the `except` clauses `connect`/`onStatus` follow; the request carries the
+cursor as a query parameter only (no `Last-Event-ID` header that would override it); the 204 of `serve`. -/
+theorem _root_.C17_reader_source_shape :
+    lineSource = "own-splitter" ∧
+    lineIterShape = ["params=1", "buffer=''", "for text in response.aiter_text()", "buffer+=text",
+      "*lines,buffer=buffer.split(sep)", "for line in lines: yield line", "if buffer: yield buffer"] ∧
+    consumerShape = ["init: self.<last> = <third argument>", "last_sequence: return self.<last>",
+      "item = await queue.get()", "_QueuedDone: return", "_QueuedError: raise item.error",
+      "self.<last> = item.sequence", "yield item.event"] ∧
+    loopShape = ["EventStream(_, _, after_sequence)", "cursor = after_sequence", "counter = 0",
+      "send after_sequence=str(cursor)", "raise_for_status", "counter = 0", "validate", "cursor = int(id)",
+      "queue (sequence=cursor)", "counter += 1", "if counter Gt max_reconnect_attempts: raise ConnectionError"] ∧
+    statusDispatch = [(404, "raise ValueError"), (204, "put _QueuedDone; return")] ∧
+    requestParams = ["sse", "include_internal", "after_sequence"] ∧ requestHeaders = ["Connection"] ∧
+    handlers = [("ValueError", "pass"), ("httpx.TimeoutException", "raise TimeoutError"),
+      ("httpx.RequestError,ConnectionError", "count"), ("asyncio.CancelledError", "put _QueuedDone"),
+      ("BaseException", "put _QueuedError")] ∧
+    serverDoneStatus = 204 ∧
+    (∀ st : CState, (onStatus st 404).2 = some .errNotFound ∧ (onStatus st serverDoneStatus).2 = some .done) := by
+  refine ⟨by decide, by decide, by decide, by decide, by decide, by decide, by decide, by decide, by decide, ?_⟩
+  intro st
+  exact ⟨by simp [onStatus], by simp [onStatus, serverDoneStatus]⟩
+
+/-- **What `Server.serve` transcribes** (`_resolve_event_stream`, regenerated with its locals
+abstracted by the C16 plug-in): the 204 test looks at ALL events after the cursor and at the
+persisted status or the log's last event; the subscription starts at the same cursor; an event is
+left out exactly when `include_internal` is off and the class name is the envelope's type or among
+its `types`; everything else is yielded with its own sequence. -/
+theorem _root_.C17_serve_source_shape :
+    Gen.EventLog.internalName = "InternalDispatchEvent" ∧
+    Gen.EventLog.apiResolve.drop 7 = [
+      "if not await self._service.store.query_events((await self._service.store.query(HandlerQuery(handler_id_in=[handler_id])))[0].run_id, after_sequence=after_sequence):",
+      "    v1 = await self._service.store.query_events((await self._service.store.query(HandlerQuery(handler_id_in=[handler_id])))[0].run_id)",
+      "    v2 = is_terminal_status((await self._service.store.query(HandlerQuery(handler_id_in=[handler_id])))[0].status) or (bool(v1) and AbstractWorkflowStore._is_terminal_event(v1[-1]))",
+      "    if v2:",
+      "        return None",
+      "async def v3():",
+      "    async for v4 in self._service.store.subscribe_events((await self._service.store.query(HandlerQuery(handler_id_in=[handler_id])))[0].run_id, after_sequence=after_sequence):",
+      "        v5 = v4.event",
+      "        v6 = (v5.types or []) + [v5.type]",
+      "        if not include_internal and InternalDispatchEvent.__name__ in v6:",
+      "            continue",
+      "        if not include_qualified_name:",
+      "            v5 = v5.model_copy(update={'qualified_name': None})",
+      "        yield (v4.sequence, v5)",
+      "return v3()"] := by
+  exact ⟨by decide, by decide +kernel⟩
+
 /-! ## the pre-fix reader (F29) -/
 
 /-- the exactly-once clause for a reader that ends lines where `httpx`'s `aiter_lines` does -/
@@ -196,7 +432,7 @@ def _root_.C17_statement_httpx : Prop :=
 def f29Payload : List Char := "{\"m\":\"line sep\"}".toList
 def f29Stop : List Char := "{\"r\":1}".toList
 def f29Valid (d : List Char) : Bool := d == f29Payload || d == f29Stop
-def f29Srv : Server := { log := [⟨0, f29Payload, false⟩, ⟨1, f29Stop, true⟩] }
+def f29Srv : Server := { log := [⟨0, f29Payload, false, false⟩, ⟨1, f29Stop, true, false⟩] }
 
 theorem f29_wellFormed : WellFormed f29Valid f29Srv := by
   refine ⟨?_, ?_, ?_⟩
@@ -222,7 +458,7 @@ def exPayload0 : List Char := "{\"k\":0,\"msg\":\"wörld ✓\"}".toList
 def exPayload1 : List Char := "{\"k\":1}".toList
 def exStop : List Char := "{\"result\":\"ok\"}".toList
 def exValid (d : List Char) : Bool := d == exPayload0 || d == exPayload1 || d == exStop
-def exSrv : Server := { log := [⟨0, exPayload0, false⟩, ⟨1, exPayload1, false⟩, ⟨4, exStop, true⟩] }
+def exSrv : Server := { log := [⟨0, exPayload0, false, false⟩, ⟨1, exPayload1, false, false⟩, ⟨4, exStop, true, false⟩] }
 
 /-- drops inside the `id:` line (3), between `id:` and `data:` (6), in the middle of the two-byte
 `ö` of the JSON (28), one byte past the frame boundary (41), after a heartbeat and the next
@@ -269,6 +505,100 @@ example : peakFailures 0 ([Fault.dropAt 41, Fault.refuse]) = 2 := by decide
 
 /-- a timeout script for `C17_never_duplicates` (hypotheses: any script with `raw = none`) -/
 example : (run (client exValid 3) exSrv { last := 0 } [{ fault := .timeoutAt 20 }]).2 = .errTimeout := by
+  decide +kernel
+
+/-! ## non-vacuity: growing log, cursors, chunks, cursor text -/
+
+/-- a history: the first connection sees one event and is cut inside its `id:` line, a refusal, then
+the second event has been appended and the connection is cut one byte into the third frame's
+predecessor, the stop event arrives while the client is being refused -/
+def exLive : List (Server × Conn) :=
+  [({ log := exSrv.log.take 1 }, { fault := .dropAt 3 }), ({ log := exSrv.log.take 1 }, { fault := .refuse }),
+   ({ log := exSrv.log.take 2 }, { fault := .dropAt 41 }), ({ log := exSrv.log.take 2 }, { fault := .dropAt 60, hb := [0, 1] }),
+   (exSrv, { fault := .refuse })]
+
+theorem ex_grows : Grows exLive exSrv := by
+  refine ⟨?_, ?_, ?_⟩
+  · decide
+  · decide
+  · decide
+
+theorem ex_live_dropsOnly : DropsOnly (exLive.map (·.2)) := by
+  intro c hc
+  simp only [exLive, List.map_cons, List.map_nil, List.mem_cons, List.not_mem_nil, or_false] at hc
+  rcases hc with rfl | rfl | rfl | rfl | rfl <;> simp
+
+example : Grows exLive exSrv ∧ Settled exLive exSrv ∧ DropsOnly (exLive.map (·.2)) ∧
+    peakFailures 0 (exLive.map (·.2.fault)) ≤ 2 ∧ WellFormed exValid exSrv :=
+  ⟨ex_grows, by unfold Settled; decide, ex_live_dropsOnly, by decide, ex_wellFormed⟩
+
+example : runLive (client exValid 2) { last := -1 } (exLive ++ [(exSrv, quiet [])])
+    = ({ last := 4, attempts := 0, out := [(0, exPayload0), (1, exPayload1), (4, exStop)], reqs := [-1, -1, -1, 0, 1, 1] }, .done) := by
+  decide +kernel
+
+/-- `C17_reconnect_cursors` on that run: six requests for six connections, the moments are
+`ks = [0, 0, 0, 1, 2, 2]` -/
+example : (runLive (client exValid 2) { last := -1 } (exLive ++ [(exSrv, quiet [])])).1.reqs
+    = [0, 0, 0, 1, 2, 2].map (streamLast (-1) [(0, exPayload0), (1, exPayload1), (4, exStop)]) := by
+  decide +kernel
+
+/-- a history that ends badly (`C17_live_never_duplicates`, `C17_last_sequence_at_every_yield`):
+a read timeout after the second event while the third is not yet in the log -/
+example : runLive (client exValid 3) { last := -1 }
+      [({ log := exSrv.log.take 1 }, { fault := .dropAt 41 }), ({ log := exSrv.log.take 2 }, { fault := .timeoutAt 30 })]
+    = ({ last := 1, attempts := 0, out := [(0, exPayload0), (1, exPayload1)], reqs := [-1, 0] }, .errTimeout)
+    ∧ streamLast (-1) [(0, exPayload0), (1, exPayload1)] 0 = -1 ∧ streamLast (-1) [(0, exPayload0), (1, exPayload1)] 1 = 0
+    ∧ streamLast (-1) [(0, exPayload0), (1, exPayload1)] 2 = 1 := by
+  decide +kernel
+
+/-- `C17_chunking_irrelevant`: a frame cut inside `data`, an empty chunk, a chunk holding two line
+ends and an unterminated tail -/
+example : chunkedLines isBreak true ["id: 1\nda".toList, [], "ta: {}\n\nx".toList]
+      = ["id: 1".toList, "data: {}".toList, [], "x".toList]
+    ∧ chunkedLines isBreak false ["id: 1\nda".toList, [], "ta: {}\n\nx".toList]
+      = ["id: 1".toList, "data: {}".toList, []]
+    ∧ (iterLines isBreak [] ["id: 1\nda".toList]).2 = "da".toList := by
+  decide +kernel
+
+/-- `C17_cursor_text_roundtrip` -/
+example : pyStr (-1) = "-1".toList ∧ pyStr 0 = "0".toList ∧ pyStr 1204 = "1204".toList ∧ pyInt? "-12".toList = some (-12) := by
+  decide +kernel
+
+/-! ## non-vacuity: hidden events -/
+
+def exIdle : List Char := "{\"idle\":1}".toList
+def exValidI (d : List Char) : Bool := exValid d || d == exIdle
+/-- two internal events between the shown ones, one after the stop event's predecessor -/
+def exSrvI : Server :=
+  { log := [⟨0, exPayload0, false, false⟩, ⟨1, exIdle, false, true⟩, ⟨2, exIdle, false, true⟩, ⟨3, exPayload1, false, false⟩,
+            ⟨4, exIdle, false, true⟩, ⟨5, exStop, true, false⟩], inclInternal := false }
+
+theorem exI_wellFormed : WellFormed exValidI exSrvI := by
+  refine ⟨?_, ?_, ?_⟩
+  · simp [LogOk, exSrvI]
+  · intro e he
+    simp only [exSrvI, List.mem_cons, List.not_mem_nil, or_false] at he
+    rcases he with rfl | rfl | rfl | rfl | rfl | rfl <;> exact ⟨by decide, by decide, by decide⟩
+  · intro e he
+    simp only [exSrvI, List.mem_cons, List.not_mem_nil, or_false] at he
+    rcases he with rfl | rfl | rfl | rfl | rfl | rfl <;> decide
+
+/-- cut one byte after the first frame: the client reconnects from 0, the server walks over the
+hidden events 1 and 2 again; cut inside the frame of event 3: again from 0 -/
+example : WellFormed exValidI exSrvI ∧
+    run (client exValidI 3) exSrvI { last := -1 } [{ fault := .dropAt 43 }, { fault := .dropAt 10 }, quiet []]
+    = ({ last := 5, attempts := 0, out := [(0, exPayload0), (3, exPayload1), (5, exStop)], reqs := [-1, 0, 0] }, .done) ∧
+    expected exSrvI (-1) = [⟨0, exPayload0, false, false⟩, ⟨3, exPayload1, false, false⟩, ⟨5, exStop, true, false⟩] ∧
+    (run (client exValidI 3) { exSrvI with inclInternal := true } { last := 2 } [quiet []]).1.out
+      = [(3, exPayload1), (4, exIdle), (5, exStop)] :=
+  ⟨exI_wellFormed, by decide +kernel, by decide +kernel, by decide +kernel⟩
+
+/-- what the model says of a run that is over (status terminal, no stop event) whose log ends with
+hidden events: a client that has everything shown is not answered 204 (the 204 test counts the
+hidden events), it gets a stream without frames that the server never closes -/
+example : (run (client exValidI 3) { log := exSrvI.log.take 5, statusDone := true, inclInternal := false } { last := 3 } [quiet []])
+    = ({ last := 3, attempts := 0, out := [], reqs := [3] }, .pending) ∧
+    (run (client exValidI 3) { log := exSrvI.log.take 4, statusDone := true, inclInternal := false } { last := 3 } [quiet []]).2 = .done := by
   decide +kernel
 
 end SseClient
